@@ -1,6 +1,7 @@
 SPECIFICATION Spec
 CONSTANTS KnownDevs = {}
 INVARIANTS
+  InEnvelope
   C05_NoDatapathResidue
   C05_NoUp4Residue
   C05_SessionRecordsForgotten
@@ -8,7 +9,6 @@ INVARIANTS
   C05_TeidsReturned
   C05_GaugeCountsLiveSessions
   C06_AddressInPoolAndExclusive
-  InEnvelope
 POSTCONDITION TraceAccepted
 ALIAS Alias
 CHECK_DEADLOCK FALSE
